@@ -226,12 +226,32 @@ func genBatch(t *rapid.T, s *schema, o *WorldOpts) []Item {
 	if rapid.IntRange(0, 2).Draw(t, "tworeps") == 0 {
 		// a second block of differently shaped documents, so that consecutive
 		// chunks / blocks of the segment differ in size and content
-		rep2 := &Rep{N: rapid.SampledFrom([]int{5, 100, 127, 129, 900, 1024, 1030}).Draw(t, "n2")}
+		rep2 := &Rep{N: rapid.SampledFrom([]int{5, 100, 127, 129, 900, 1024, 1030, 2048}).Draw(t, "n2")}
 		nt2 := rapid.IntRange(1, 3).Draw(t, "ntmpl2")
+		// often the second block lacks one field entirely: whole chunks
+		// without doc values / postings of that field ("holes")
+		hole := ""
+		if rapid.IntRange(0, 1).Draw(t, "hole") == 0 {
+			hole = rapid.SampledFrom(s.fields).Draw(t, "holefield")
+		}
 		for i := 0; i < nt2; i++ {
-			rep2.Tmpl = append(rep2.Tmpl, genDoc(t, s))
+			d := genDoc(t, s)
+			if hole != "" {
+				kept := d.Fields[:0]
+				for _, f := range d.Fields {
+					if f.Name != hole {
+						kept = append(kept, f)
+					}
+				}
+				d.Fields = kept
+			}
+			rep2.Tmpl = append(rep2.Tmpl, d)
 		}
 		items = append(items, Item{Rep: rep2})
+		if rapid.IntRange(0, 1).Draw(t, "threereps") == 0 {
+			// ... and the first kind of document again after the hole
+			items = append(items, Item{Rep: &Rep{N: rapid.SampledFrom([]int{3, 60, 1024}).Draw(t, "n3"), Tmpl: rep.Tmpl}})
+		}
 	}
 	explicit(0, 3, "ntail")
 	return items
